@@ -163,16 +163,15 @@ LoopPush ==
        /\ seen' = IF Bug = "seenOnQfull" /\ id \in Ids THEN seen \cup {id} ELSE seen
        /\ IF Len(valQ) < QCapEff
             THEN /\ Enqueue(id) /\ inbox' = Tail(inbox)
-                 /\ appl' = IF id \in Ids /\ appl[id] = {} THEN [appl EXCEPT ![id] = ValsNow(id)] ELSE appl
                  /\ UNCHANGED <<loopBlocked, qf, drops>>
           ELSE IF Bug = "blockingPush"
-            THEN /\ loopBlocked' = TRUE /\ UNCHANGED <<valQ, inbox, qf, drops, appl>>
+            THEN /\ loopBlocked' = TRUE /\ UNCHANGED <<valQ, inbox, qf, drops>>
             ELSE /\ inbox' = Tail(inbox)
                  /\ qf' = IF id \in Ids THEN [qf EXCEPT ![id] = Cap3(@ + 1)] ELSE qf
                  /\ drops' = drops \cup {[id |-> id, why |-> "Q", ok |-> Len(valQ) >= cfg.qcap]}
-                 /\ UNCHANGED <<valQ, loopBlocked, appl>>
+                 /\ UNCHANGED <<valQ, loopBlocked>>
     /\ UNCHANGED <<cfg, regd, used, sent, worker, jobs, gUsed, vUsed, invs, sendQ, now, local,
-                   arr, dup, val, fin, entered, exits, aband, badctx>>
+                   arr, dup, val, fin, entered, exits, appl, aband, badctx>>
 
 \* (seeded blockingPush only) the blocked send completes when a worker made room
 LoopUnblock ==
@@ -220,9 +219,10 @@ WorkerMark(w) ==
        IF x.id \in seen /\ Bug # "seenOnQfull"
          THEN /\ dup' = [dup EXCEPT ![x.id] = Cap3(@ + 1)]
               /\ worker' = [worker EXCEPT ![w] = Idle]
-              /\ UNCHANGED <<seen, val, invs, entered>>
+              /\ UNCHANGED <<seen, val, invs, entered, appl>>
          ELSE /\ seen' = seen \cup {x.id}
               /\ val' = [val EXCEPT ![x.id] = Cap3(@ + 1)]
+              /\ appl' = [appl EXCEPT ![x.id] = x.vals]       \* the validators captured for the copy that IS validated
               /\ dup' = dup
               /\ IF InlineOf(x.vals) = <<>>
                    THEN /\ worker' = [worker EXCEPT ![w].st = "fin"] /\ UNCHANGED <<invs, entered>>
@@ -230,7 +230,7 @@ WorkerMark(w) ==
                         /\ invs' = invs \cup {Inv(InlineOf(x.vals)[1], x.id, "w")}
                         /\ Entered(x.id, InlineOf(x.vals)[1])
     /\ UNCHANGED <<cfg, regd, used, sent, inbox, loopBlocked, valQ, jobs, gUsed, vUsed, sendQ, now, local,
-                   arr, qf, fin, drops, exits, appl, aband, badctx>>
+                   arr, qf, fin, drops, exits, aband, badctx>>
 
 Exited(id, vd) == exits' = [exits EXCEPT ![id] = @ \cup {vd}]
 
@@ -422,6 +422,12 @@ Honour ==
     \/ \E w \in 1..MaxW : /\ worker[w].st = "inline"
                           /\ \E i \in invs : i.own = "w" /\ i.id = worker[w].id /\ i.ctx # "live" /\ i.v \notin cfg.deaf
                           /\ InlineRet(w, cfg.tv)
+    \/ /\ local.st = "inline" /\ \E i \in invs : i.own = "l" /\ i.ctx # "live" /\ i.v \notin cfg.deaf
+       /\ LocalRet(cfg.tv)
+
+HonourEnabled ==
+    \E i \in invs : /\ i.st = "run" /\ i.ctx # "live" /\ i.v \notin cfg.deaf
+                     /\ (i.own = "j" => ~LiveJob(i.id) \/ \E j \in jobs : j.id = i.id /\ j.st = "wait" /\ i.v \in j.run)
 
 Environment ==
     \/ \E b \in Bursts : LoopArrive(b)
